@@ -1099,6 +1099,29 @@ def _list_into_iter(ex, p, m, a, func, fr):
     return one(Agg('struct', (tr, (bv64(0), 'usize')), 'ListIter'))
 
 
+@model(r'^<(?:\w+::)*(?:Address|SocketAddr|SocketAddrV4|SocketAddrV6|Ipv4Addr|Ipv6Addr|RequestHeader|String) as (?:std::clone::)?Clone>::clone$')
+def _value_clone(ex, p, m, a, func, fr):
+    # values are persistent in this executor: a clone of a modelled value is the value
+    try:
+        v = ex.deref_all(p.st, a[0]) if isinstance(a[0], Ref) else a[0]
+    except Inconclusive:
+        return None
+    if isinstance(v, Opaque):
+        return None
+    return one(v)
+
+
+@model(r'^core::slice::<impl \[(?!u8\])(.+)\]>::iter$')
+def _list_iter(ex, p, m, a, func, fr):
+    tr = target_ref(ex, p, a[0]) if isinstance(a[0], Ref) else a[0]
+    return one(Agg('struct', (tr, (bv64(0), 'usize')), 'ListIter'))
+
+
+@model(r'^<(?:std|core)::slice::Iter<\'_, (?!u8>)(.+)> as (?:std::iter::)?IntoIterator>::into_iter$')
+def _list_iter_into_iter(ex, p, m, a, func, fr):
+    return one(a[0])
+
+
 @model(r'^<(?:std|core)::slice::Iter<\'_, (?!u8>)(.+)> as (?:std::iter::)?Iterator>::next$')
 def _list_iter_next(ex, p, m, a, func, fr):
     tr = target_ref(ex, p, a[0])
